@@ -361,7 +361,7 @@ func outCoverSeqs(sp []outSpan, k string, buf []uint64) []uint64 {
 			}
 		}
 	}
-	sort.Slice(buf, func(i, j int) bool { return buf[i] > buf[j] })
+	sortDesc(buf)
 	return buf
 }
 
